@@ -83,6 +83,8 @@ fn main() {
             let mut lists: Vec<Vec<usize>> = vec![];
             let mut frontier: Vec<Vec<usize>> = vec![vec![]];
             for _ in 0..maxk { let mut next = vec![]; for l in &frontier { for k in 0..POOL.len() { if !l.contains(&k) { let mut m = l.clone(); m.push(k); next.push(m); } } } lists.extend(next.iter().cloned()); frontier = next; }
+            // a few long requests (5 and 6 keys, in three orders each) whatever the bound
+            for base in [vec![0usize, 1, 2, 3, 4, 5], vec![5, 4, 3, 2, 1, 0], vec![2, 4, 0, 5, 1, 3], vec![0, 4, 1, 5, 2], vec![3, 0, 5, 1, 4], vec![0, 1, 2, 4, 5, 6]] { lists.push(base); }
             for l in &lists {
                 // at most one failing key per request (so that the expected error is unambiguous), and not too many requests
                 if l.iter().filter(|k| expected(**k).is_err()).count() > 1 { continue; }
